@@ -1,6 +1,7 @@
 import RB.Gen.ReportFields
 import RB.Gen.ReportTables
 import RB.Model.Report
+import RB.Model.DataFile
 /-!
 # Translation tie for the field mapping of the reports (C18)
 
@@ -79,15 +80,39 @@ theorem gen_template_keys :
 theorem gen_columns_eq_model : RB.Gen.ReportTables.expected_columns = colNames := by
   decide +kernel
 
+/-- `as_table_cell` on the modelled values: the text of a `str` cleaned as the data-file model says
+(`RB.DataFile.cleanCell`: tab, line feed and carriage return become a space), anything else unchanged -/
+def cellV : V → V
+  | .str s => .str (RB.DataFile.cleanCell s)
+  | v => v
+
 /-- **the identifying columns of a row**, in the order of the titles: benchmark, executor, suite, extra args (empty
-for `None`), cores, input size, variable, tag, machine; the tenth is the id, whose place `#Samples` takes -/
-theorem gen_row_columns (name exe suite cores size var tag machine : V) (extra : List Char) (id : Nat) :
+for `None`), cores, input size, variable, tag, machine, each passed through `as_table_cell` (`cell`, whatever it
+does); the tenth is the id, whose place `#Samples` takes.  `Benchmark.as_str_list` itself hands out the raw cells. -/
+theorem gen_row_columns (cell : V → V) (name exe suite cores size var tag machine : V) (extra : List Char) (id : Nat) :
     (Benchmark_as_str_list name exe suite (V.str extra)).bind
-        (fun b => RunId_as_str_list b cores size var tag machine (V.int id)) =
-      some [name, exe, suite, V.str extra, cores, size, var, tag, machine, V.str (V.natDigits id)] ∧
+        (fun b => RunId_as_str_list b cores size var tag machine cell (V.int id)) =
+      some ([name, exe, suite, V.str extra, cores, size, var, tag, machine, V.str (V.natDigits id)].map cell) ∧
     Benchmark_as_str_list name exe suite V.none = some [name, exe, suite, V.str []] ∧
     colNames.length = 9 + 2 := by
   refine ⟨?_, rfl, rfl⟩
-  simp [Benchmark_as_str_list, RunId_as_str_list, V.isNone, V.pystr]
+  have hneg : ¬ ((id : Int) < 0) := by omega
+  simp [Benchmark_as_str_list, RunId_as_str_list, V.isNone, V.pystr, hneg]
+
+/-- with the cleaning of the data-file model for `as_table_cell`: every text cell of the row is the cleaned text
+(no tab, line feed or carriage return is left in it), in the same order, and the id is unchanged -/
+theorem gen_row_columns_cleaned (name exe suite extra cores size var tag machine : List Char) (id : Nat) :
+    (Benchmark_as_str_list (V.str name) (V.str exe) (V.str suite) (V.str extra)).bind
+        (fun b => RunId_as_str_list b (V.str cores) (V.str size) (V.str var) (V.str tag) (V.str machine) cellV (V.int id)) =
+      some (([name, exe, suite, extra, cores, size, var, tag, machine].map (fun s => V.str (RB.DataFile.cleanCell s))) ++
+        [V.str (RB.DataFile.cleanCell (V.natDigits id))]) ∧
+    (∀ s : List Char, ∀ c ∈ RB.DataFile.cleanCell s, c ≠ '\t' ∧ c ≠ '\n' ∧ c ≠ '\r') := by
+  refine ⟨?_, ?_⟩
+  · have hneg : ¬ ((id : Int) < 0) := by omega
+    simp [Benchmark_as_str_list, RunId_as_str_list, V.isNone, V.pystr, cellV, hneg]
+  · intro s c hc
+    simp only [RB.DataFile.cleanCell, List.mem_map] at hc
+    obtain ⟨d, _, rfl⟩ := hc
+    split <;> simp_all
 
 end RB.Report
